@@ -72,27 +72,29 @@ def time_obs():
                 known_finding="KF-C39-timeval-range"))
     return o
 
+QUICK_OPTS = ["ndots", "timeout", "max-inflight", "attempts", "bind-to", "initial-probe-timeout", "max-probe-timeout", "use-vc", "edns-udp-size"]
 def opt_obs(tier):
     o = []
+    tvc = [["--replace-calls", "evdns_strtotimeval:c39_timeval_contract"]]
     for k, n in enumerate(OPT_NAMES):
-        U = len(n) + 3 + 2
-        defs = ["C39_OPTK=%d" % k, "KF_EXCLUDE_INT_WRAP", "KF_EXCLUDE_TIMEVAL_RANGE"]
+        if tier == "quick" and n not in QUICK_OPTS: continue
+        defs = ["C39_OPTK=%d" % k, "KF_EXCLUDE_INT_WRAP"]
         o.append(ob("opt_%s" % n.replace("-", "_"), "harness_option",
                     "evdns_base_set_option_impl(\"%s\"[short of its last character] + <= 3 arbitrary bytes, value <= 4 bytes or NULL, any flags): result and "
-                    "every configuration field == reference; rejected/unselected/near-miss options change nothing; no leak" % n,
-                    defs, unwind=max(U, 24), unwindset=["evdns_base_set_max_requests_inflight.1:16"],
-                    timeout=900, mem_gb=6))
+                    "every configuration field == reference; rejected/unselected/near-miss options change nothing; no leak "
+                    "(evdns_strtotimeval by the contract decided in `timeval`)" % n,
+                    defs, unwind=max(len(n) + 6, 25), unwindset=["evdns_base_set_max_requests_inflight.1:16"], instrument=tvc, timeout=900, mem_gb=3))
+    on = 8 if tier == "quick" else 10
     o.append(ob("opt_symbolic", "harness_option",
-                "evdns_base_set_option_impl(any text <= %d bytes in an exact object, value <= 4 bytes, any flags) == reference" % (8 if tier == "quick" else 10),
-                ["C39_ON=%d" % (8 if tier == "quick" else 10), "KF_EXCLUDE_INT_WRAP", "KF_EXCLUDE_TIMEVAL_RANGE"], unwind=24,
-                unwindset=["evdns_base_set_max_requests_inflight.1:16"], timeout=900, mem_gb=8))
-    o.append(ob("opt_timeout_kf_range", "harness_option",
-                "evdns_base_set_option_impl(\"timeout...\") on exactly the KF-C39-timeval-range values",
-                ["C39_OPTK=1", "KF_ONLY_TIMEVAL_RANGE"], unwind=24,
-                unwindset=["evdns_base_set_max_requests_inflight.1:16"], timeout=900, mem_gb=6,
-                expect_fail=["C39: evdns_base_set_option result differs", "C39: configuration after evdns_base_set_option differs",
-                             "arithmetic overflow on floating-point typecast", "arithmetic overflow on float"],
-                known_finding="KF-C39-timeval-range"))
+                "evdns_base_set_option_impl(any text <= %d bytes in an exact object, value <= 4 bytes, any flags) == reference" % on,
+                ["C39_ON=%d" % on, "KF_EXCLUDE_INT_WRAP"], unwind=25,
+                unwindset=["evdns_base_set_max_requests_inflight.1:16"], instrument=tvc, timeout=900, mem_gb=4))
+    o.append(ob("opt_attempts_kf_wrap", "harness_option",
+                "evdns_base_set_option_impl(\"attempts...\") on exactly the KF-C39-int-wrap values",
+                ["C39_OPTK=5", "KF_ONLY_INT_WRAP"], unwind=25,
+                unwindset=["evdns_base_set_max_requests_inflight.1:16"], instrument=tvc, timeout=900, mem_gb=3,
+                expect_fail=["C39: evdns_base_set_option result differs", "C39: configuration after evdns_base_set_option differs"],
+                known_finding="KF-C39-int-wrap"))
     return o
 
 def line_obs(tier):
